@@ -391,20 +391,44 @@ class Real:
             return errname(e)
 
 
-def run_real(ops, tmpdir):
+class CallTimeout(BaseException):
+    pass
+
+
+def _on_alarm(signum, frame):
+    raise CallTimeout()
+
+
+def run_real(ops, tmpdir, per_call=10.0):
+    """every call runs under a watchdog (lock.acquire is interruptible): a call that blocks -- e.g. on a
+    commit lock leaked by an earlier failure -- is an observation ('err:Hang'), not a hung check"""
+    import signal
     d = os.path.join(tmpdir, 'case')
     shutil.rmtree(d, ignore_errors=True)
     os.makedirs(d)
     r = Real(d)
     out, present = [], []
+    old = signal.signal(signal.SIGALRM, _on_alarm)
     try:
         for op in ops:
-            if op.startswith('newoid') and r.stack:
-                present.append(r.present_oids())
-            else:
-                present.append(None)
-            out.append(r.do(op))
+            signal.setitimer(signal.ITIMER_REAL, per_call)
+            try:
+                if op.startswith('newoid') and r.stack:
+                    present.append(r.present_oids())
+                else:
+                    present.append(None)
+                out.append(r.do(op))
+            except CallTimeout:
+                if len(present) == len(out):
+                    present.append(None)
+                out.append('err:Hang')
+                out += ['err:Skipped'] * (len(ops) - len(out))
+                present += [None] * (len(ops) - len(present))
+                break
+            finally:
+                signal.setitimer(signal.ITIMER_REAL, 0)
     finally:
+        signal.signal(signal.SIGALRM, old)
         r.close()
         shutil.rmtree(d, ignore_errors=True)
     return out, present
@@ -641,7 +665,9 @@ def judge(op, real, exp, world, present):
     """None = the oracle accepts (or has no opinion); else a description of the disagreement"""
     if ' !' in real:
         return 'lower storage was modified: %s' % real
-    if exp is None:
+    if real == 'err:Hang':
+        return '%s did not return within the watchdog time (blocked)' % op
+    if real == 'err:Skipped' or exp is None:
         return None
     if isinstance(exp, tuple) and exp[0] == 'newoid':
         lv = exp[1]
@@ -698,6 +724,8 @@ SIGS = {'lb': 'loadBefore', 'load': 'load', 'ls': 'loadSerial', 'gt': 'getTid', 
 
 
 def signature(ops, i, real):
+    if real[i] == 'err:Hang':
+        return 'C16:hang'
     if ' !base-changed' in real[i]:
         return 'C16:base-modified'
     if ' !pop-returned-other' in real[i]:
@@ -718,6 +746,7 @@ class Gen:
         self.x = 0
         self.pool = [0, 1, 2, 3, 4, 5]
         self.fresh = 50
+        self.aborted_issued = set()
 
     def emit(self, op):
         self.ops.append(op)
@@ -804,7 +833,9 @@ class Gen:
             exp = self.emit('store %d %d %d %d' % (x, o, ser, self.newdata()))
             if exp == 'ok' or exp is None:
                 stored += 1
-        if stored == 0 or rng.random() < 0.15:
+        touched_issued = [o for o in chosen if o in lv.issued]
+        if stored == 0 or rng.random() < (0.45 if touched_issued else 0.15):
+            self.aborted_issued.update(touched_issued)     # issued, stored, aborted: must stay issued
             self.emit('abort %d' % x)
         else:
             self.emit('vote %d' % x)
@@ -827,6 +858,9 @@ class Gen:
                              if self.cur(o) is not None and self.cur(o)[1] is not None})
         uncreated = {o for _, recs in w.H for o in recs if self.cur(o)[1] is None}
         coll = []
+        again = sorted(self.aborted_issued & lv.issued)
+        if again and rng.random() < 0.7:
+            coll.append(rng.choice(again))
         for _ in range(rng.choice([0, 1, 2, 3])):
             src = rng.random()
             if src < 0.35 and lv.issued:
@@ -854,6 +888,53 @@ class Gen:
                 lv.next = cand + 1
                 if cand not in self.pool and rng.random() < 0.7:
                     pass
+                return
+        lv.next = cand
+
+    def issue_store_abort_reissue(self):
+        """directed: an id that was issued, stored and aborted must stay issued (and one that was committed
+        must be found in the changes) when the draw stream proposes it again"""
+        rng, w = self.rng, self.w
+        lv = w.top
+        if lv.txn is not None or lv.next is None:
+            return
+        before = set(lv.issued)
+        self.newoid()
+        new = sorted(lv.issued - before)
+        if not new:
+            return
+        o = new[0]
+        self.k += 1
+        self.x += 1
+        self.emit('begin %d %d' % (self.x, UNIT * self.k))
+        self.emit('store %d %d 0 %d' % (self.x, o, self.newdata()))
+        if rng.random() < 0.7:
+            self.emit('abort %d' % self.x)
+            self.aborted_issued.add(o)
+        else:
+            self.emit('vote %d' % self.x)
+            self.emit('finish %d' % self.x)
+        if self.cur(lv.next) is None and lv.next not in lv.issued:
+            self.k += 1
+            self.x += 1
+            self.emit('begin %d %d' % (self.x, UNIT * self.k))
+            self.emit('store %d %d 0 %d' % (self.x, lv.next, self.newdata()))
+            self.emit('vote %d' % self.x)
+            self.emit('finish %d' % self.x)
+        self.fresh += 3
+        draws = [o, self.fresh]
+        uncreated = {x for _, recs in w.H for x in recs if self.cur(x)[1] is None}
+        if lv.next in uncreated or set(draws) & uncreated:
+            return                           # excluded point (probed separately)
+        self.emit('newoid ' + ','.join(map(str, draws)))
+        taken = {x for _, recs in w.H for x in recs if self.cur(x)[1] is not None} | lv.issued
+        cand = lv.next
+        for d in [None] + draws:
+            if d is not None:
+                cand = d
+            if cand not in taken:
+                lv.issued.add(cand)
+                lv.next = cand + 1
                 return
         lv.next = cand
 
@@ -915,10 +996,12 @@ class Gen:
                 self.emit('pushwith %s %d' % (ck, first))
             for _ in range(rng.choice([2, 3, 4, 6])):
                 r = rng.random()
-                if r < 0.6:
+                if r < 0.55:
                     self.txn()
-                elif r < 0.85:
+                elif r < 0.78:
                     self.newoid()
+                elif r < 0.88:
+                    self.issue_store_abort_reissue()
                 else:
                     self.maybe_pack()
                 if rng.random() < 0.3:
@@ -1053,6 +1136,124 @@ def probe_uncreated_reissue(tmp, rng):
     return None
 
 
+# ---------------------------------------------------------------- blob-capable layers (real code + oracle)
+def run_blob_case(rng, tmp):
+    """Blob records and their files through demo stacks over a blob-capable base: every committed
+    (oid, serial) blob of every layer is readable through the top storage with its own content, aborted
+    ones are not, the base (records, file bytes, blob directory) never changes.  The blob files themselves
+    are outside the Lean model (C13's subject); here they are compared with a plain dictionary."""
+    import ZODB.blob
+    d = os.path.join(tmp, 'blobcase')
+    shutil.rmtree(d, ignore_errors=True)
+    os.makedirs(d)
+    rec = zodb_pickle(ZODB.blob.Blob())
+    content, cur, log = {}, {}, []
+    k = [0]
+    FAKE.queue = []
+
+    def txn(st, writes, abort=False):
+        k[0] += 1
+        tid = real_tid(UNIT * k[0])
+        t = TransactionMetaData()
+        st.tpc_begin(t, tid)
+        for oid, text in writes:
+            fn = os.path.join(st.temporaryDirectory(), 'up-%d-%d' % (k[0], oid))
+            with open(fn, 'wb') as f:
+                f.write(text)
+            st.storeBlob(p64(oid), cur.get(oid, z64), rec, fn, '', t)
+        if abort:
+            st.tpc_abort(t)
+            log.append('abort %s' % [w[0] for w in writes])
+            return [(oid, tid) for oid, _ in writes]
+        st.tpc_vote(t)
+        st.tpc_finish(t)
+        for oid, text in writes:
+            content[(oid, tid)] = text
+            cur[oid] = tid
+        log.append('commit %s' % [w[0] for w in writes])
+        return []
+
+    def check(top, gone):
+        for (oid, tid), text in sorted(content.items()):
+            try:
+                with open(top.loadBlob(p64(oid), tid), 'rb') as f:
+                    got = f.read()
+                with top.openCommittedBlobFile(p64(oid), tid) as f:
+                    got2 = f.read()
+            except Exception as e:
+                return 'loadBlob(%d, %s) through the demo stack raised %s' % (oid, abs_tid(tid), type(e).__name__)
+            if got != text or got2 != text:
+                return 'loadBlob(%d, %s) returned the wrong file content' % (oid, abs_tid(tid))
+        for oid, tid in gone:
+            try:
+                top.loadBlob(p64(oid), tid)
+                return 'blob (%d, %s) of an aborted transaction is readable' % (oid, abs_tid(tid))
+            except POSException.POSKeyError:
+                pass
+        for oid, tid in cur.items():
+            if top.load(p64(oid))[1] != tid:
+                return 'load(%d) serial differs from the last committed blob revision' % oid
+        return None
+    bad = None
+    stack = []
+    try:
+        base = FileStorage(os.path.join(d, 'base.fs'), blob_dir=os.path.join(d, 'base.blobs'), create=True)
+        stack.append(base)
+        for _ in range(rng.choice([1, 2, 3])):
+            txn(base, [(o, b'base-%d-%d' % (o, k[0])) for o in rng.sample([1, 2, 3, 4], rng.choice([1, 2]))])
+        snaps = []
+        gone = []
+        for level in range(rng.choice([1, 2, 3])):
+            lower = stack[-1]
+            snaps.append(dump(lower))
+            ck_kind = rng.choice(['blob', 'temp'])
+            if ck_kind == 'blob':
+                p = os.path.join(d, 'c%d.fs' % level)
+                ch = FileStorage(p, blob_dir=p + '.blobs', create=True)
+                new = lower.push(ch) if isinstance(lower, DemoStorage) else DemoStorage(base=lower, changes=ch)
+            else:
+                new = lower.push() if isinstance(lower, DemoStorage) else DemoStorage(base=lower)
+            log.append('push %s' % ck_kind)
+            stack.append(new)
+            for _ in range(rng.choice([1, 2, 4])):
+                oids = rng.sample([1, 2, 3, 4], rng.choice([1, 2]))
+                if rng.random() < 0.4:
+                    oids.append(u64(new.new_oid()))
+                gone += txn(new, [(o, b'L%d-%d-%d' % (level, o, k[0])) for o in oids], abort=rng.random() < 0.25)
+                bad = bad or check(new, gone)
+                if dump(lower) != snaps[-1]:
+                    bad = bad or 'the storage below a demo storage changed while blobs were stored through it'
+                if bad:
+                    break
+            if bad:
+                break
+        while not bad and len(stack) > 1 and rng.random() < 0.7:
+            top = stack.pop()
+            lower = top.pop()
+            log.append('pop')
+            for key in [key for key in content if u64(key[1]) > max(
+                    [u64(t.tid) for t in lower.iterator()] + [0])]:
+                del content[key]
+            cur.clear()
+            for (oid, tid) in sorted(content, key=lambda x: x[1]):
+                cur[oid] = tid
+            if lower is not stack[-1] or dump(lower) != snaps.pop():
+                bad = 'pop did not return the unchanged lower storage'
+            else:
+                bad = check(lower, []) if isinstance(lower, DemoStorage) else None
+    except Exception as e:
+        import traceback
+        bad = bad or 'blob scenario raised %s: %s' % (type(e).__name__, traceback.format_exc()[-600:])
+    finally:
+        for st in reversed(stack):
+            try:
+                st.close()
+            except Exception:
+                pass
+        shutil.rmtree(d, ignore_errors=True)
+    return bad, log
+
+
 # ---------------------------------------------------------------- main
 def run_case(ck, ops, model_out, tag):
     real, present = run_real(ops, ck.tmp)
@@ -1118,6 +1319,9 @@ def main(argv=None):
         if case.get('probe'):
             ncases = 0
             probes = case['probe']
+        elif case.get('blob_seed') is not None:
+            ncases = 0
+            probes = False
         else:
             cases = [case['ops']]
             ncases = 0
@@ -1161,6 +1365,20 @@ def main(argv=None):
             j = [k for k in range(len(ops)) if real[k] != mo[k]][0]
             ck.mismatch('model/impl differ at op %d %r: impl %s model %s' % (j, ops[j], real[j], mo[j]),
                         dict(ops=ops[:j + 1], real=real[j], model=mo[j]))
+    # ---- blob files through blob-capable layers
+    blob_seeds = []
+    if ck.replay_path:
+        if (rep.get('case') or {}).get('blob_seed') is not None:
+            blob_seeds = [rep['case']['blob_seed']]
+    else:
+        blob_seeds = [ck.rng.randrange(10 ** 12) for _ in range(30 if not ck.thorough else 400)]
+    import random as _random
+    for bs in blob_seeds:
+        bad, blog = run_blob_case(_random.Random(bs), ck.tmp)
+        ck.count('blob:cases')
+        ck.case(['blob', blog], True, None)
+        if bad:
+            ck.violation('C16:blob', bad, dict(blob_seed=bs, log=blog[-12:]))
     # ---- excluded points, each on the real code with its own signature
     excluded = {}
     if probes:
